@@ -110,11 +110,50 @@ type phiAlt struct {
 	val   ssa.Value
 	pred  *ssa.BasicBlock // predecessor that selects the alternative
 	succ  int             // index of the phi's block among pred's successors
+	at    ssa.Instruction // the store or return
 }
 
 func phiStoreAlternatives(fn *ssa.Function, r *regexp.Regexp) []phiAlt {
 	var out []phiAlt
 	for _, in := range ir.Instrs(fn) {
+		// a return whose results are selected by phis of one block (results of an inlined helper): "return of the
+		// i-th alternatives" happens on the paths through that block's i-th predecessor
+		if ret, ok := in.(*ssa.Return); ok {
+			var blk *ssa.BasicBlock
+			same := len(ret.Results) > 0
+			for _, res := range ret.Results {
+				if ph, ok := res.(*ssa.Phi); ok {
+					if blk == nil {
+						blk = ph.Block()
+					} else if blk != ph.Block() {
+						same = false
+					}
+				}
+			}
+			if blk != nil && same {
+				for i, pred := range blk.Preds {
+					var ds []string
+					for _, res := range ret.Results {
+						if ph, ok := res.(*ssa.Phi); ok {
+							ds = append(ds, ir.Desc(ph.Edges[i]))
+						} else {
+							ds = append(ds, ir.Desc(res))
+						}
+					}
+					if !r.MatchString("return:" + strings.Join(ds, ", ")) {
+						continue
+					}
+					si := 0
+					for k, s := range pred.Succs {
+						if s == blk {
+							si = k
+						}
+					}
+					out = append(out, phiAlt{nil, ret.Results[0], pred, si, ret})
+				}
+			}
+			continue
+		}
 		st, ok := in.(*ssa.Store)
 		if !ok {
 			continue
@@ -140,7 +179,7 @@ func phiStoreAlternatives(fn *ssa.Function, r *regexp.Regexp) []phiAlt {
 						si = k
 					}
 				}
-				out = append(out, phiAlt{st, e, pred, si})
+				out = append(out, phiAlt{st, e, pred, si, st})
 			}
 		}
 		walk(ph, 0)
@@ -153,16 +192,16 @@ func (c *Ctx) guardPhiAlt(rule, fnName string, fn *ssa.Function, label string, a
 	for _, cl := range clauses {
 		construct := label + " guarded by {" + cl.Name + "}"
 		if cl.MatchEdge(a.pred, a.succ) {
-			c.R.OK(rule, fnName, construct, c.pos(a.store), "")
+			c.R.OK(rule, fnName, construct, c.pos(a.at), "")
 			continue
 		}
 		ok, w := ir.GuardedBy(fn, last, cl)
 		if ok && w.CutCount > 0 {
-			c.R.OK(rule, fnName, construct, c.pos(a.store), "")
+			c.R.OK(rule, fnName, construct, c.pos(a.at), "")
 			continue
 		}
-		c.R.Bad(rule, fnName, construct, c.pos(a.store), fmt.Sprintf("the value %q can be stored by %q on a path that does not cross an edge of guard {%s} (edges: %s); witness path: %s",
-			ir.Desc(a.val), ir.InstrDesc(a.store), cl.Name, edgeLabels(cl), strings.Join(w.PathTo(c.P, last), " -> ")))
+		c.R.Bad(rule, fnName, construct, c.pos(a.at), fmt.Sprintf("the value %q can be stored by %q on a path that does not cross an edge of guard {%s} (edges: %s); witness path: %s",
+			ir.Desc(a.val), ir.InstrDesc(a.at), cl.Name, edgeLabels(cl), strings.Join(w.PathTo(c.P, last), " -> ")))
 	}
 }
 
